@@ -137,7 +137,7 @@ mutual
     | [], l => by intro _ hl; simp [HTree.pathToList] at hl
     | k :: ks, l => by
       intro hv hl
-      obtain ⟨h1, h2⟩ := validList_cons b k ks hv
+      obtain ⟨h1, h2⟩ := fc_validList_cons b k ks hv
       unfold HTree.pathToList at hl
       cases hp : HTree.pathTo h k with
       | some l' =>
@@ -161,16 +161,16 @@ theorem nsDecls_eq (t : Tree) : t.nsDecls = t.namespaceNodes.filterMap (fun k =>
   congr 1
 
 /-- The declarations of a node in terms of its children with handles. -/
-def declsOfKids (ks : List HTree) : List (Nat × Nat) :=
+def fcDeclsOfKids (ks : List HTree) : List (Nat × Nat) :=
   (ks.takeWhile (fun k => k.value.category == .namespace)).filterMap (fun k => fcNsPair k.value)
 
 theorem erase_value' (t : HTree) : (erase t).value = t.value := by
   cases t; rfl
 
 theorem nsDecls_erase (h : Nat) (v : Value) (ks : List HTree) :
-    (erase (.node h v ks)).nsDecls = declsOfKids ks := by
+    (erase (.node h v ks)).nsDecls = fcDeclsOfKids ks := by
   rw [nsDecls_eq]
-  simp only [erase, Tree.namespaceNodes, Tree.kids, declsOfKids]
+  simp only [erase, Tree.namespaceNodes, Tree.kids, fcDeclsOfKids]
   induction ks with
   | nil => rfl
   | cons k ks ih =>
@@ -189,9 +189,9 @@ theorem takeWhile_sublist_filter {α} (p : α → Bool) : ∀ l : List α, (l.ta
     · exact List.nil_sublist _
 
 theorem declsOfKids_keys (ks : List HTree) :
-    (declsOfKids ks).map (·.1) =
+    (fcDeclsOfKids ks).map (·.1) =
       (ks.takeWhile (fun k => k.value.category == .namespace)).map (fun k => Forest.entryKey k.value) := by
-  unfold declsOfKids
+  unfold fcDeclsOfKids
   induction ks with
   | nil => rfl
   | cons k ks ih =>
@@ -217,7 +217,7 @@ theorem chainOK_of_valid (b : Bool) (l : List HTree) (hv : ∀ x ∈ l, validTre
       have hne' : v.isElement = false := by simpa [erase, Tree.value] using hne
       simp only [validTree, Bool.and_eq_true, List.all_eq_true] at hvx
       have hall := hvx.1.1.1.1.1
-      unfold declsOfKids
+      unfold fcDeclsOfKids
       cases ks with
       | nil => rfl
       | cons k ks =>
